@@ -43,7 +43,7 @@ def cases(tier: str) -> List[Any]:
     for M in Ms:
         for prefix in itertools.product(range(4), repeat=2 if tier == "quick" else 3):
             out.append({"M": M, "K": K, "prefix": list(prefix)})
-            if M == Ms[0]:
+            if M == Ms[-1]:
                 out.append({"M": M, "K": K, "prefix": list(prefix), "crash": True})
     return out
 
